@@ -16,14 +16,16 @@ def run(ctx):
     binp = snapalg.build()
     run_ = snapalg.Run(ctx)
     if ctx.tier == "quick":
-        fams_laws = ["CorruptSnap", "CorruptDelta", "Registry", "TypeSweep", "Reuse"]
-        fams_a = ["CorruptSnap", "CorruptDelta", "BigSnap", "BigDelta", "Registry", "TypeSweep", "Reuse"]
+        fams_laws = ["CorruptSnap", "CorruptDelta", "Registry", "TypeSweep", "Reuse", "ChainWrongQuick"]
+        fams_a = ["CorruptSnap", "CorruptDelta", "BigSnap", "BigDelta", "Registry", "TypeSweep", "Reuse", "ChainWrongQuick"]
         nb, seeds, par = 600, 1, 4
+        more_b = [("chainwrong", 5)]
     else:
-        fams_laws = ["CorruptSnap", "CorruptDelta", "BigSnap", "BigDelta", "Registry", "TypeSweep", "Reuse"]
-        fams_a = ["CorruptSnap", "CorruptDelta", "BigSnap", "BigDelta", "Registry", "TypeSweep", "Reuse"]
+        fams_laws = ["CorruptSnap", "CorruptDelta", "BigSnap", "BigDelta", "Registry", "TypeSweep", "Reuse", "ChainWrongThorough"]
+        fams_a = list(fams_laws)
         nb, seeds, par = 6000, 6, 8
-    paths = snapalg.run_all(ctx, run_, binp, fams_laws, fams_a, "parse", nb, seeds=seeds, par=par, law_workers=2)
+        more_b = [("chainwrong", 40)]
+    paths = snapalg.run_all(ctx, run_, binp, fams_laws, fams_a, "parse", nb, seeds=seeds, par=par, law_workers=2, more_b=more_b)
     if ctx.tier == "thorough" and paths:
         def mut(ev):
             tgt = ev["raw"] if "raw" in ev else ev["d"]
